@@ -32,6 +32,11 @@ def _rules():
 
 _R = _rules()
 
+# TestC13c feeds decoders inputs of at most a few KB: the process is capped at 4 GB of address space and an
+# out-of-memory abort of the Go runtime there is the "allocating without bound" the property forbids (the case being
+# decoded is saved first and becomes the replay file); everywhere else an out-of-memory abort is INCONCLUSIVE.
+_C13C_ENV = {"VERIF_MEM_GB": 4, "VERIF_OOM_IS_VIOLATION": 1}
+
 CHECKS = {
     "C01": {
         "level": "exploration",
@@ -112,10 +117,11 @@ CHECKS = {
         "level": "exploration",
         "rule": _R["C13"] + " | (b) TestC13b: a reference history of 1-6 versions is written by the independent encoder (two own nonce numberings, reference roots in the 13-byte and the old 9-byte form, empty roots, optionally fast index + label); the library must Load it, report the same versions/contents/hashes/proofs, pass the raw audit and continue 3-20 generated steps (commits, prunes, rollbacks, reopens) with reference hashes; non-trivial = >=1 inner node and >=1 reference or empty root encoded. | (c) TestC13c: valid encodings for MakeNode, MakeLegacyNode, fastnode.DeserializeNode, DecodeBytes/Uvarint/Varint (verif re-export) and the reference-root reader are mutated (byte flips, truncation, splices of hostile varints: max, overflow, 2^62 length) or replaced by random bytes: error-or-value, no panic, < 64 MB allocated per call, successful decodes agree field by field with the independent decoder / encoding/binary; non-trivial = input differs from the valid encoding and is longer than 2 bytes. thorough adds native go fuzz campaigns per decoder.",
         "assumptions": _ASSUME + ["pinned on-disk layout as restated in harness/codec.go"],
+        "replay_mem_gb": 4, "replay_oom_is_violation": True,
         "quick": [{"test": "TestC13a", "checks": 500, "shards": 4}, {"test": "TestC13b", "checks": 400, "shards": 4},
-                  {"test": "TestC13c", "checks": 6000, "shards": 4}],
+                  {"test": "TestC13c", "checks": 6000, "shards": 4, "env": _C13C_ENV}],
         "thorough": [{"test": "TestC13a", "checks": 30000, "shards": 6}, {"test": "TestC13b", "checks": 20000, "shards": 6},
-                     {"test": "TestC13c", "checks": 400000, "shards": 4},
+                     {"test": "TestC13c", "checks": 400000, "shards": 4, "env": _C13C_ENV},
                      {"kind": "fuzz", "test": "FuzzMakeNode", "fuzztime": "120s"}, {"kind": "fuzz", "test": "FuzzMakeLegacyNode", "fuzztime": "90s"},
                      {"kind": "fuzz", "test": "FuzzDeserializeNode", "fuzztime": "60s"}, {"kind": "fuzz", "test": "FuzzDecodeBytes", "fuzztime": "45s"},
                      {"kind": "fuzz", "test": "FuzzDecodeVarint", "fuzztime": "30s"}, {"kind": "fuzz", "test": "FuzzDecodeUvarint", "fuzztime": "30s"},
